@@ -50,8 +50,14 @@ def main():
             print(f"{name}: tests_pass={ok} ({tail}); {quiet}/{len(props)} checks silent")
         finally:
             shutil.rmtree(d, ignore_errors=True)
-    with open(os.path.join(a.dir, "RESULTS.json"), "w") as f:
-        json.dump(out, f, indent=1)
+    rp = os.path.join(a.dir, "RESULTS.json")
+    merged = {}
+    if os.path.isfile(rp):
+        with open(rp) as f:
+            merged = json.load(f)
+    merged.update(out)  # a partial run (--only) keeps the other entries
+    with open(rp, "w") as f:
+        json.dump(merged, f, indent=1, sort_keys=True)
 
 
 if __name__ == "__main__":
